@@ -11,7 +11,7 @@ use regex::Regex;
 use std::collections::BTreeMap;
 use std::fmt;
 use std::str::FromStr;
-use textwrap::wrap;
+use textwrap::{wrap, Options, WordSeparator, WordSplitter};
 
 /// Represents available actions for the player
 #[derive(Debug, Clone, Copy, PartialEq, Eq)]
@@ -356,7 +356,9 @@ impl Game {
             "{result}\n{} ",
             wrap(
                 format!("{}", self.get_action_history()).as_str(),
-                TEXT_WRAP_WIDTH
+                Options::new(TEXT_WRAP_WIDTH)
+                    .word_separator(WordSeparator::AsciiSpace)
+                    .word_splitter(WordSplitter::NoHyphenation)
             )
             .join("\n")
         );
